@@ -45,7 +45,7 @@ func r16_1(c *Ctx, r *Report) {
 					for _, a := range axList(v.ax) {
 						r.assume(axText(a))
 					}
-				} else if c.starTableOK[fn] {
+				} else if starTableCovers(c, fn, 0) {
 					// intervals cannot bound it, but the function was followed over its whole input domain
 					r.ok(rule, construct, c.pos(call.Pos()), "argument "+v.String()+" by intervals; the decision table of R16.5 follows this function for every input and finds the stated index, a number 0..8, every time").Class = "TABLE"
 				} else {
